@@ -9,7 +9,8 @@ EXPLANATION = ('The real TimexParsing/TimexRegex(stdlib re)/Timex.assign_propert
                'takes on the values. One slice per grammar pattern (and enum alternative), field values symbolic over their whole range.')
 ASSUMPTIONS = ['stdlib re and decimal.Decimal(str)/str(Decimal) are trusted; Decimal amounts are modelled by a text-preserving stub (Amt)',
                'field ranges: year 1..9999, month 1..12, day 1..31, weekday 1..7, ISO week 1..53, week of month 1..5, hour 0..23, minute/second 0..59',
-               'explicit (start,end,duration) ranges are not in the property statement grammar list and are not covered']
+               'explicit (start,end,duration) ranges are not in the property statement grammar list and are not covered',
+               'date-RANGE pattern + T part: see known finding F19 (its region is characterised by O14.5-range+time)']
 OUTSIDE = ['(start,end,duration) range TIMEXes', 'field values outside the calendar ranges (month 00, hour 99, ...)']
 
 P = 'datatypes_timex_expression.'
@@ -32,7 +33,22 @@ def _enum_choices(patterns):
     return [list(c) for c in itertools.product(*[range(n) for n in counts])]
 
 
+def _example(pattern):
+    """a member of a TimexRegex date pattern (digits 1, first enum alternative), used only to ask TimexInference for its type"""
+    from harness import digits
+    out = ''
+    for t in digits.template(pattern):
+        if isinstance(t, str):
+            out += t
+        elif t[0] == 'num':
+            out += '1'.rjust(t[2], '0')
+        elif t[0] == 'enum':
+            out += t[2][0]
+    return out
+
+
 def obligations(tier):
+    from datatypes_timex_expression import Timex
     from datatypes_timex_expression.timex_regex import TimexRegex
     rx = TimexRegex.timexRegex
     t = 90 if tier == 'quick' else 400
@@ -43,11 +59,16 @@ def obligations(tier):
     for ti, r in enumerate(rx['time']):
         for en in _enum_choices([r.pattern]):
             slices.append({'kind': 'time', 'ti': ti, 'enums': en})
-    dates = range(len(rx['date'])) if tier == 'thorough' else range(min(3, len(rx['date'])))
-    for di in dates:
+    # date + time combinations: the patterns that denote a DATE (TimexInference gives them the type 'date' and no 'daterange')
+    # go through the full round trip; a date-RANGE pattern followed by a T part is the region of known finding F19
+    rslices = []
+    for di in range(len(rx['date'])):
+        is_range = 'daterange' in Timex(_example(rx['date'][di].pattern)).types
         for ti, r in enumerate(rx['time']):
             for en in _enum_choices([rx['date'][di].pattern, r.pattern]):
-                slices.append({'kind': 'datetime', 'di': di, 'ti': ti, 'enums': en})
+                (rslices if is_range else slices).append({'kind': 'datetime', 'di': di, 'ti': ti, 'enums': en})
+    if tier == 'quick':
+        rslices = [x for x in rslices if not any(x['enums'])]
     shapes = [[1, 0], [2, 0], [3, 0], [1, 1], [1, 2], [0, 1], [0, 2], [2, 1]] if tier == 'thorough' else [[1, 0], [3, 0], [1, 2], [0, 1]]
     for pi, r in enumerate(rx['period']):
         for en in _enum_choices([r.pattern]):
@@ -59,6 +80,13 @@ def obligations(tier):
                      'duration amounts with <=3 integer and <=2 fraction digits); all number fields symbolic over their calendar range',
               encodes=ENC, stubs=['fixed_format_number -> placeholder stub (real one: O14.0)', 'int() of a group -> registry lookup',
                                   'decimal.Decimal -> text-preserving Amt stub'])]
+    obs.append(Ob('O14.5-range+time-kf', 'xh', 'harness.C14:h_roundtrip', slices=rslices, timeout=t, finding='F19',
+                  descr='region of known finding F19: a date-range TIMEX followed by a T part does not survive format',
+                  bounds='every date-range pattern x every time pattern (quick: first enum alternative only)', encodes=ENC))
+    obs.append(Ob('O14.5-range+time', 'xh', 'harness.C14:h_range_time', slices=rslices, timeout=t,
+                  descr='inside the F19 region: every group is parsed into its field, format keeps the date-range part exactly and is idempotent; '
+                        'only the T part (for week-of-month-weekday + part of day: month and week of month) is lost',
+                  bounds='as O14.5-range+time-kf', encodes=ENC))
     zs = []
     for pi, r in enumerate(rx['period']):
         for en in _enum_choices([r.pattern]):
